@@ -1,6 +1,6 @@
 (* C03: the hypotheses of the theorems are satisfiable by non-trivial inputs, and a non-trivial guarded
    program runs to completion. *)
-From SE Require Import Expr.ArithProg.
+From SE Require Import Expr.ArithProg Expr.ArithPowProofs.
 Local Open Scope Z_scope.
 Definition vx := ESym [120%N]. Definition vy := ESym [121%N].
 Definition sinx := EF1 TC_Sin vx.
@@ -20,3 +20,11 @@ Example C03_program_runs :
   | None => false
   end = true.
 Proof. vm_compute. reflexivity. Qed.
+(* pow / div: (1/2*I*x*y**-2)**-3 and ex_sum / ex_prod return canonical values *)
+Example C03_pow_div_guards_hold :
+  pow_operand_ok ex_prod (-3) = true /\ pow_operand_ok ex_prod (-1) = true /\ pow_operand_ok (EPow vy e_half) 4 = true /\
+  match e_pow 6 ex_prod (ENum (NInt (-3))), e_div 6 ex_sum ex_prod with
+  | Ok p, Ok q => canonical p && canonical q && negb (expr_eqb p q)
+  | _, _ => false
+  end = true.
+Proof. vm_compute. repeat split; reflexivity. Qed.
